@@ -11,7 +11,7 @@ import (
 func init() {
 	register(&propDef{
 		ID:       "C01",
-		Explain:  "Decided (structural necessary conditions of the composition): in cmd/gnmi_collector every target handed to manager.Add is first registered with the cache under the same name on every success path; the manager's callbacks are the methods of the one cache object (Reset/Sync/Connect/ConnectError) and the Update closure reaches Cache.GnmiUpdate of that cache; the cache's feed is the Update method of the Subscribe server that is registered on the gRPC server; SetClient and RegisterGNMIServer precede Serve, and SetClient precedes the first target start; the Update closure stamps the target into a non-nil prefix on every path before handing the notification to the cache; in cmd/gnmi_cli all four execute* functions parse the text returned by protoRequestFromFlags (never the raw -proto flag); exhaustiveness: the client's and the manager's response switches have an arm or error default for every SubscribeResponse kind, the client's update arm forwards every update and every delete, and CacheClient's handler has an arm for every Notification type with Update -> Tree.Add and Delete -> Tree.Delete. Also decided (clauses shared with the component properties, each a necessary condition of the relay): the coalescing queue forgets a key when it dequeues it; the delete condition removes only strictly older leaves; a rejected update of a combined notification neither stops the remaining updates nor skips the deletes (control-flow must-pass-through); value.Equal never calls two different values equal (so the event-driven suppression never hides a change from a streaming client). Round-3 additions: every ended stream resets the target's cache state before the next session (the manager's session typestate, borrowed from C13); Target.GnmiUpdate hands every update and every delete of a notification to the tree whatever the mix ((u,d) in {0,1,2}^2 dispatch table); in package manager nothing is stored through a message the function does not own (the shared SubscribeRequest template is customised in a proto.Clone only). Round-4 addition: a client's registration with the feed survives the end of other clients' streams (removeQuery's emptiness table, shared with C04/C06/C08). Round-5 additions: no string is cut at a string-range byte index plus/minus a constant unless the rune is known to be ASCII (gnmi_cli query parsing with multi-byte delimiters); the response handed to a subscriber wraps the whole cached notification or a clone of the whole of it. Round-6 additions: the subscriber is registered for changes before its initial walk and the walk is marked by exactly one sync (borrowed from C04); Reset announces one delete per non-metadata root (a whole-target delete would end the client's stream).",
+		Explain:  "Decided (structural necessary conditions of the composition): in cmd/gnmi_collector every target handed to manager.Add is first registered with the cache under the same name on every success path; the manager's callbacks are the methods of the one cache object (Reset/Sync/Connect/ConnectError) and the Update closure reaches Cache.GnmiUpdate of that cache; the cache's feed is the Update method of the Subscribe server that is registered on the gRPC server; SetClient and RegisterGNMIServer precede Serve, and SetClient precedes the first target start; the Update closure stamps the target into a non-nil prefix on every path before handing the notification to the cache; in cmd/gnmi_cli all four execute* functions parse the text returned by protoRequestFromFlags (never the raw -proto flag); exhaustiveness: the client's and the manager's response switches have an arm or error default for every SubscribeResponse kind, the client's update arm forwards every update and every delete, and CacheClient's handler has an arm for every Notification type with Update -> Tree.Add and Delete -> Tree.Delete. Also decided (clauses shared with the component properties, each a necessary condition of the relay): the coalescing queue forgets a key when it dequeues it; the delete condition removes only strictly older leaves; a rejected update of a combined notification neither stops the remaining updates nor skips the deletes (control-flow must-pass-through); value.Equal never calls two different values equal (so the event-driven suppression never hides a change from a streaming client). Round-3 additions: every ended stream resets the target's cache state before the next session (the manager's session typestate, borrowed from C13); Target.GnmiUpdate hands every update and every delete of a notification to the tree whatever the mix ((u,d) in {0,1,2}^2 dispatch table); in package manager nothing is stored through a message the function does not own (the shared SubscribeRequest template is customised in a proto.Clone only). Round-4 addition: a client's registration with the feed survives the end of other clients' streams (removeQuery's emptiness table, shared with C04/C06/C08). Round-5 additions: no string is cut at a string-range byte index plus/minus a constant unless the rune is known to be ASCII (gnmi_cli query parsing with multi-byte delimiters); the response handed to a subscriber wraps the whole cached notification or a clone of the whole of it. Round-6 additions: the subscriber is registered for changes before its initial walk and the walk is marked by exactly one sync (borrowed from C04); Reset announces one delete per non-metadata root (a whole-target delete would end the client's stream). Round-7 addition: the index of a query path (path.ToStrings: key values, element order, which of the two encodings wins) is the table borrowed from C19 - a keyed path that indexes differently from how the leaves were filed matches nothing.",
 		NotCover: "end-to-end equality of the client view with the target's final state for every stream; gRPC; flag parsing of the built binaries; everything behavioural in the components (covered only by the other properties' clauses)",
 		Run:      runC01,
 	})
@@ -99,6 +99,7 @@ func runC01(c *Ctx) {
 	resetRemoveAnnounce(c, "C01.reset-announce")
 	c.Borrow("C07", map[string]string{"C07.resp-faithful": "C01.resp-faithful"}, "the response handed to a subscriber wraps the whole cached notification (or a clone of the whole of it): a response rebuilt from one of its updates drops the other leaves of an atomic group from the client's view")
 	c.Borrow("C13", map[string]string{"C13.session": "C01.relay-session"}, "every ended stream must reset the target's cache state before the next session, or leaves that vanished during the gap stay in the cache and in every client")
+	c.Borrow("C19", map[string]string{"C19.prefix": "C01.path-index"}, "a query reaches the collector as a gnmi.Path and is matched against the cache by path.ToStrings: the index of a path with list keys (or one that carries both encodings, as gnmi_cli builds it) must be the one the leaves were filed under, or the client is shown nothing")
 	// ---- reg
 	{
 		n := 0
